@@ -15,6 +15,7 @@ LEVEL = 'exploration'
 SHARDS = {'quick': 8, 'thorough': 16}
 TIMEOUT = {'quick': 400, 'thorough': 3400}
 N_SEARCH = {'quick': 360, 'thorough': 16000}
+N_BIG = {'quick': 12, 'thorough': 300}          # scale regime: 65-200 repetitions, 100-300 combinations
 RULE = ('cases: seeded grid searches over grids of 1-12 combinations (1-3 parameters, dict or ParameterList), all 8 scoring modes, repetitions '
         '1-5 (>=2 for variance modes), score tables with negative, tied, non-monotone, exact dyadic values and magnitudes 1e19-1e30 (beyond '
         'sys.maxsize, both signs), the optimum placed first / middle / last, several tied optima; step limits below/above the model\'s own '
@@ -28,7 +29,7 @@ ASSUMPTIONS = ['grids carry no repeated values (the table key must identify the 
                'workers are forked (Linux default), so the score table set before the call is visible to them']
 FLOORS = {'quick': {'searches': 300, 'parallel_searches': 150, 'results_checked': 1500, 'mode_0': 15, 'mode_1': 15, 'mode_2': 15, 'mode_3': 15,
                     'mode_4': 15, 'mode_5': 15, 'mode_6': 15, 'mode_7': 15, 'tied_optimum': 40, 'optimum_last': 30, 'optimum_first': 30,
-                    'optimum_middle': 20, 'beyond_maxsize_tables': 40, 'seeded_grids': 40, 'parameter_list_reused': 80, 'style_bigint': 20, 'style_nearmax': 8, 'limit_below_completion': 30,
+                    'optimum_middle': 20, 'beyond_maxsize_tables': 40, 'seeded_grids': 40, 'big_equal_valued_neighbours': 2, 'big_long_variance': 2, 'big_grids': 2, 'parameter_list_reused': 80, 'style_bigint': 20, 'style_nearmax': 8, 'limit_below_completion': 30,
                     'reach:Batching.grid_search': 300, 'reach:Batching._score_model_for_search': 1500},
           'thorough': {'searches': 12000, 'parallel_searches': 6000}}
 EXHAUSTIVE = {}
@@ -196,14 +197,84 @@ def case_search(ctx, case):
                     'scores': sc0[:6], 'best_index': outcomes[0][1], 'processes': procs_list})
 
 
+
+def case_big(ctx, case):
+    """Scale regime: 65-200 repetitions per combination (variance of scores that are large compared with their spread; equal-valued
+    neighbouring combinations such as 1 / 1.0), grids of 100-300 combinations - serial and multi-process, exact recomputation."""
+    import ECAgent.Batching as batching
+    from vlib.fixtures import batchmodels as bm
+    rng = ctx.rng('big', case['i'])
+    style = case['i'] % 3
+    if style == 0:
+        grid = {'lr': rng.sample([0.1, 0.2, 0.5, 2.0], 3), 'size': rng.choice([[1, 1.0], [10, 10.0, 20], [True, 1, 2]])}
+        reps, mode = rng.choice([65, 70, 130]), rng.choice([0, 1, 4, 5, 2, 3])
+        ctx.count('big_equal_valued_neighbours')
+    elif style == 1:
+        grid = {'lr': rng.sample([0.1, 0.2, 0.5, 1.0, 2.0], rng.randint(2, 4))}
+        reps, mode = rng.choice([129, 150, 200]), rng.choice([6, 7])
+        ctx.count('big_long_variance')
+    else:
+        grid = {'size': list(range(rng.choice([100, 180, 300])))}
+        reps, mode = 1, rng.randrange(6)
+        ctx.count('big_grids')
+    grid['stop'] = 0
+    ref = [[]]
+    for nme, v in grid.items():
+        vals = v if isinstance(v, list) else [v]
+        ref = [row + [(nme, x)] for row in ref for x in vals]
+    ref = [dict(r) for r in ref]
+    base = rng.choice([0, 1e3, 1e6, 1e9, 1e9, 2.0 ** 40]) if style == 1 else 0
+    rows = [[base + rng.randint(-40, 40) / 8 for _ in range(reps)] for _ in ref]
+    bm.TABLE.clear()
+    keys = [bm.pkey(c) for c in ref]
+    check(len(set(keys)) == len(keys), 'harness: table keys must identify the combinations', keys=keys[:6])
+    for k_, row in zip(keys, rows):
+        bm.TABLE[k_] = list(row)
+    bm.EXPECT_T[0] = 1
+    exact = [exact_aggregate(r, mode) for r in rows]
+    is_min = mode % 2 == 0
+    outcomes = []
+    for procs in (1, rng.choice([2, 3, 5])):
+        bm.COUNTS.clear()
+        best, results = batching.grid_search(bm.SModel, dict(grid), bm.table_score, processes=procs, repetitions=reps, mode=batching.ScoreMode(mode))
+        ctx.count('searches')
+        ctx.ev()
+        detail = dict(grid={k: (v if not isinstance(v, list) or len(v) < 8 else f'{len(v)} values') for k, v in grid.items()},
+                      mode=batching.ScoreMode(mode).name, repetitions=reps, processes=procs)
+        if len(results) != len(ref):
+            raise CaseViolation(f'grid_search returned {len(results)} results for {len(ref)} combinations', **detail)
+        for j, (res, combo, row, ex) in enumerate(zip(results, ref, rows, exact)):
+            plain = {k_: v_ for k_, v_ in res.items() if k_ not in ('records', 'score')}
+            if plain != combo or any(type(plain[k_]) is not type(combo[k_]) for k_ in combo):
+                raise CaseViolation(f'result #{j} carries parameters {plain}, expected {combo}', **detail)
+            if list(res['records']) != list(row):
+                raise CaseViolation(f'result #{j}: {len(res["records"])} individual scores, expected the {len(row)} values of the score function',
+                                    first_scores=list(res['records'])[:5], expected_first=row[:5], **detail)
+            sc = res['score']
+            tol = 0 if mode < 4 else abs(float(ex)) * 1e-9 + 1e-12
+            if abs(Fraction(sc) - ex) > tol and sc != float(ex):
+                raise CaseViolation(f'result #{j}: aggregate {sc!r} is not the {batching.ScoreMode(mode).name} aggregate {float(ex)!r} of its {reps} scores',
+                                    baseline=base, **detail)
+        scores = [r['score'] for r in results]
+        first = scores.index(min(scores) if is_min else max(scores))
+        check(best is results[first], f'best is not the first result attaining the optimum (result #{first})', **detail)
+        outcomes.append(([dict(r) for r in results], first))
+    check(outcomes[0] == outcomes[1], 'serial and multi-process grid search differ in the scale regime', grid=str(grid)[:200])
+    bm.EXPECT_T[0] = None
+    ctx.distinct(('big', style, reps, mode, case['i']))
+
+
 def run_case(ctx, case):
-    case_search(ctx, case)
+    (case_big if case.get('kind') == 'big' else case_search)(ctx, case)
 
 
 def run(ctx):
     for i in range(N_SEARCH[ctx.tier]):
         if ctx.mine(i) and not ctx.full():
             ctx.run_case({'kind': 'search', 'i': i}, run_case)
+    for i in range(N_BIG[ctx.tier]):
+        if ctx.mine(i) and not ctx.full():
+            ctx.run_case({'kind': 'big', 'i': i}, run_case)
 
 
 def replay(ctx, case):
